@@ -45,6 +45,7 @@ class BlockNormalizer(Visitor):
         new_circuit.constants.update(circuit.constants)
         new_circuit.macros.update(circuit.macros)
         new_circuit.registers.update(circuit.registers)
+        new_circuit.usepulses.extend(circuit.usepulses)
         new_circuit.body.statements.extend(self.visit(circuit.body).statements)
         return new_circuit
 
